@@ -73,6 +73,8 @@ def rgrids():
             # grid followed by a valence grid): added after seeded change C05-B was missed
             "descending5": OneDGrid(np.array([2.6, 1.5, 0.9, 0.35, 0.1]), np.array([0.9, 0.6, 0.4, 0.2, 0.1]), (0, np.inf)),
             # degenerate sizes: a single shell, two shells
+            # a first shell at a tiny non-zero radius (below the library's 1e-8 "is zero" threshold)
+            "tiny3": OneDGrid(np.array([5e-9, 0.3, 0.9]), np.array([1e-9, 0.4, 0.6]), (0, np.inf)),
             "single1": OneDGrid(np.array([0.7]), np.array([0.4]), (0, np.inf)),
             "pair2": OneDGrid(np.array([0.25, 1.3]), np.array([0.3, 0.9]), (0, np.inf)),
             "unsorted5": OneDGrid(np.array([0.2, 0.6, 1.1, 0.05, 2.4]), np.array([0.2, 0.4, 0.5, 0.1, 0.8]), (0, np.inf)),
